@@ -11,7 +11,7 @@ from vlib import model as M
 from vlib import modeops
 from vlib import recs as RC
 from vlib import refcal as R
-from vlib.runner import Outcome, Violation, VERIF_DIR, REPO
+from vlib.runner import Outcome, Violation, Hang, watchdog, VERIF_DIR, REPO
 
 PID = "C15"
 RULE = (
@@ -69,6 +69,13 @@ class Workers:
             self.procs[mode] = p
         p.stdin.write(json.dumps(op) + "\n")
         p.stdin.flush()
+        import select
+        ready, _, _ = select.select([p.stdout], [], [], 180)
+        if not ready:
+            p.kill()
+            self.procs.pop(mode, None)
+            raise Hang("the single-mode %s process did not answer %s within "
+                       "180 s" % (mode, json.dumps(op)))
         line = p.stdout.readline()
         if not line:
             raise RuntimeError("mode worker %s died" % mode)
@@ -248,7 +255,8 @@ def do_compute(state, spec, workers):
         got = [out, None if code is None else str(type(code).__name__),
                None if exc is None else type(exc).__name__]
     else:
-        got = modeops.execute(op)
+        with watchdog(180):
+            got = modeops.execute(op)
     got = json.loads(json.dumps(got))
     want = workers.ask(cm, op)
     if got != want:
@@ -284,7 +292,10 @@ def check_case(case):
                 fail = do_switch(state, step)
             else:
                 n += 1
-                _, fail = do_compute(state, step["spec"], workers)
+                try:
+                    _, fail = do_compute(state, step["spec"], workers)
+                except Hang as e:
+                    fail = "hang: mode %s %r: %s" % (state.mode, step["spec"], e)
             if fail:
                 break
     except Exception as e:      # noqa: BLE001
@@ -319,7 +330,10 @@ def make_machine(ctx, workers, seen):
             step = {"do": "compute", "spec": spec}
             self.steps.append(step)
             self.ncompute += 1
-            op, fail = do_compute(self.state, spec, workers)
+            try:
+                op, fail = do_compute(self.state, spec, workers)
+            except Hang as e:
+                self._fail("hang: mode %s %r: %s" % (self.state.mode, spec, e))
             sig = json.dumps(op, sort_keys=True)
             prev = seen.setdefault(sig, set())
             if prev - {self.state.mode}:
